@@ -1,6 +1,7 @@
 #!/bin/bash
 tier=$1; shift
 export VERIF_ARGS="$*"
+export VERIF_RACE_RUNS=3
 . /verif/env.sh
 export VERIF_EXTRA_OVERLAY="$VERIF_REPO/graphql/handler/transport/export_verif.go=/verif/props/c07/shim/export_verif.go"
 exec /verif/tools/instr_check.sh c07 "$tier" -maprange \
